@@ -1,1 +1,2 @@
 pub mod c13;
+pub mod c20;
